@@ -117,6 +117,30 @@ CHECKS = {
         "note": "Trusted: Admission.tla as the reading of the code's checks, TLC, the harness' classification of what the candidate reads back (250 ms window, real time). TLS client certificates, websockets and the bridge are not exercised.",
         "technique": "TLA+ decision table enumerated by TLC and replayed row by row into the real admission path + TLC model checking and trace validation of the router's connection bookkeeping",
     },
+    "C04": {
+        "bins": ["codecs"],
+        "category": "exploration",
+        "text": "Wire.tla defines the packet value spaces of MQTT 3.1.1 (888 values) and MQTT 5 (4241 values), boundary-complete in every length-carrying field, and for 3.1.1 the complete byte layout (Bytes4, as runs). TLC evaluates the spaces and the layout; the harness builds each value in the client and the broker codec of that version and checks decode(encode(p)) = p in both crates, consumed = produced, size() = bytes written, byte-identity of the two independent encoders, cross-decoding client<->broker, equality of the real bytes with Wire!Bytes4 (3.1.1) and of the header byte (5).",
+        "design_ref": "DESIGN.md section 6 / C04",
+        "note": "Trusted: Wire.tla as the reading of the standard's layout, TLC, the harness' value<->struct mapping (one mapping per crate, written against the public types). v5 property bytes are checked by round trip and by agreement of two independent encoders, not against a TLA+ layout.",
+        "technique": "TLA+ value-space and byte-layout specification evaluated by TLC and replayed vector by vector into the four real codecs",
+    },
+    "C05": {
+        "bins": ["codecs"],
+        "category": "exploration",
+        "text": "Framing.tla states what one decoder call may answer given only the first bytes of the buffer, the number of buffered bytes and the maximum size: need-more exactly while the fixed header or the declared frame is incomplete (never on a complete frame), error on a malformed length or a declared length above the maximum, and on success consumption of exactly the declared frame. Byte strings (all strings up to length 3/4 over a header-grammar alphabet under all chunkings, 256 first bytes x 16 length shapes, structural mutations of every valid frame of Wire.tla, concatenated frames under random chunkings, maximum sizes around the frame) are run through the four decoders inside a Framed-like loop; TLC checks every recorded call against Framing!CallOk (FramingTrace.tla); outputs of different chunkings of the same bytes must be equal; a panic is a violation.",
+        "design_ref": "DESIGN.md section 6 / C05",
+        "note": "Trusted: Framing.tla, TLC, the harness loop (append chunk, call decoder until need-more/error). Not exhaustive beyond the stated lengths.",
+        "technique": "TLA+ per-call framing contract checked by TLC on call records of the real decoders (impl->spec) over enumerated and mutated byte strings",
+    },
+    "C20": {
+        "bins": ["codecs", "crossver"],
+        "category": "exploration",
+        "text": "The packet values the routing core can hand to a link are the broker-to-client subset of Wire!Packets5 (enumerated by TLC: publishes with every subset of publish properties, acks/releases with reason codes and properties, subacks, unsubacks, ping responses, disconnects). Each is written with the broker's 3.1.1 and 5 protocol and decoded by the matching client codec: no error, no panic, same topic/payload/ids, properties dropped towards 3.1.1 and preserved towards 5. End to end, a real router thread and two real remote() tasks carry a QoS 1 publish between all four pairs of listener versions, a v5 publisher using every subset of five publish properties; the subscriber's bytes are decoded with its client codec and compared, the publisher must still get its PUBACK.",
+        "design_ref": "DESIGN.md section 6 / C20",
+        "note": "Trusted: Wire.tla's value space as the set of notifications, the harness. Real time (multi-thread runtime) in the end-to-end part with generous timeouts (500-800 ms waits on an in-memory stream).",
+        "technique": "TLC-enumerated notification values replayed into both broker protocol writers + end-to-end runs over the real router and remote()",
+    },
     "C12": {
         "bins": ["topics"],
         "category": "exploration",
